@@ -780,6 +780,7 @@ RULES = [
     Rule('C04.T2', 'callee context: declared, else passed, else IEEE double', t2_func_ctx, 7, 'T'),
     Rule('C04.T3', 'boundary table: a Python bool/int/float/RealFloat/Fraction argument enters as exactly the number it is', scalar_arms, 8, 'T'),
     Rule('C04.T4', 'min / max: NaN first, value by order, a tie of zeros by sign (-0 for min, +0 for max) whatever the operand order and kind', t4_min_max_ties, 2, 'T'),
+    Rule('C04.T6', 'arithmetic under `with fp.REAL` follows the IEEE rules for NaN, infinities and zeros (= C02.T2, the exact engine)', lambda ctx: __import__('sa.props.engine_rules', fromlist=['t2_real_specials']).t2_real_specials(ctx), 48, 'T'),
     Rule('C04.T5', 'a negated operand is the operation Neg; the sign folds into the literal only for a zero and an integer', t5_negated_literals, 12, 'T'),
     Rule('C04.F2', 'FPy-to-FPy calls share arguments; nothing rounds on entry; boundary conversion only when convert', f2_call_boundary, 6, 'F'),
     Rule('C04.F3', 'strict helpers are used for index, slice, zip, len, any/all, min/max, ==, orderings, range', f3_strict_helpers, 15, 'F'),
@@ -788,6 +789,9 @@ RULES = [
 from ..selftest import Mutant  # noqa: E402
 
 MUTANTS = [
+    Mutant('exact-sum-hands-back-the-other-operand-of-a-zero', 'fpy2/number/engine/real.py', "        else:\n            # both are finite\n            match x, y:\n                case Float(), Float():\n                    r = x.as_real() + y.as_real()",
+           "        elif _is_zero(y):\n            return x\n        elif _is_zero(x):\n            return y\n        else:\n            # both are finite\n            match x, y:\n                case Float(), Float():\n                    r = x.as_real() + y.as_real()", 'C04.T6',
+           'seeded change C04e: with fp.REAL: y = x + 0 keeps the -0 of x, and 1 / y is -inf'),
     Mutant('zero-tie-needs-two-floats', BYTE, "        elif x == result and _is_negative(x) and not _is_negative(result):", "        elif x == result and isinstance(x, Float) and isinstance(result, Float) and x.s and not result.s:", 'C04.T4',
            'finding F54 before its repair: min(0, -0.0) is +0.0 while min(-0.0, 0) is -0.0'),
     Mutant('max-prefers-negative-zero', BYTE, "        elif x == result and not _is_negative(x) and _is_negative(result):", "        elif x == result and _is_negative(x) and not _is_negative(result):", 'C04.T4'),
